@@ -37,6 +37,13 @@ def step (st : St) (cmd : String) (args : List String) : St × String :=
     match tree i, ofHex r with
     | some t, some r => ({ st with trees := st.trees.push { t with root := r } }, toString st.trees.size)
     | _, _ => bad
+  | "setroot", [i, r] =>   -- `tree.root_hash = r` on a live object (same database)
+    match i.toNat?, ofHex r with
+    | some n, some r =>
+      match st.trees[n]? with
+      | some t => ({ st with trees := st.trees.set! n { t with root := r } }, "ok")
+      | none => bad
+    | _, _ => bad
   | "set", [i, k, v] =>
     match i.toNat?, ofHex k, ofHex v with
     | some i, some k, some v =>
